@@ -1544,8 +1544,7 @@ func (l *lexer) scanCmdSubst(r rune) bool {
 			l.mu.Lock()
 			if l.err == nil {
 				l.err = ll.err
-				if len(ll.stack) == 0 && r == '`' {
-					err := l.err.(Error)
+				if err, ok := l.err.(Error); ok && len(ll.stack) == 0 && r == '`' {
 					l.err = Error{
 						Name: err.Name,
 						Pos:  err.Pos,
